@@ -1,6 +1,8 @@
 (* C03, the three counters: unbounded theorems about Gen/Counters.v (argument counter: token level) and
    Model/CounterTrace.v (functions / vars on top of the scope-trace model). *)
 From NV Require Import Model.Base Model.RuleChecks Model.CounterBase Gen.Counters Proofs.StrOrder Proofs.RuleChecksProofs.
+From NV Require Import Model.ScopeBase Gen.ScopeOps Model.ScopeTrace Model.ScopeBody Model.CounterTrace Proofs.ScopeTraceProofs.
+From NV Require Gen.Limits Gen.Registry.
 From Coq Require Import Lia.
 Local Open Scope Z_scope.
 
@@ -199,4 +201,478 @@ Proof.
   destruct (1 + n >? 4).
   - rewrite Ptp. cbn [emit bind app]. fin3.
   - fin3.
+Qed.
+
+(* ================================================================== functions and variables: the counter trace *)
+Definition tmf := s "TOO_MANY_FUNCS".
+Definition tmv := s "TOO_MANY_VARS_FUNC".
+Definition is_func (x : stmt) : bool := str_eqb (st_rule x) r_func_decl.
+Definition is_vdecl (x : stmt) : bool := str_eqb (st_rule x) r_var_decl.
+
+(* the codes CheckFunctionsCount emits along a statement list, newest first, starting from `functions = f0`: one at every
+   IsFuncDeclaration match that brings the counter above the limit *)
+Fixpoint tmf_list (f0 : Z) (l : list stmt) : list str :=
+  match l with
+  | [] => []
+  | x :: r => if is_func x then tmf_list (f0 + 1) r ++ (if f0 + 1 >? functions_limit then [tmf] else []) else tmf_list f0 r
+  end.
+Fixpoint nfuncs (l : list stmt) : Z := match l with [] => 0 | x :: r => (if is_func x then 1 else 0) + nfuncs r end.
+Fixpoint tmv_list (v0 : Z) (l : list stmt) : list str :=
+  match l with
+  | [] => []
+  | x :: r => if is_vdecl x then tmv_list (v0 + 1) r ++ (if v0 + 1 >? vars_limit then [tmv] else []) else tmv_list v0 r
+  end.
+Fixpoint nvdecls (l : list stmt) : Z := match l with [] => 0 | x :: r => (if is_vdecl x then 1 else 0) + nvdecls r end.
+
+Lemma nfuncs_nonneg l : 0 <= nfuncs l.
+Proof. induction l as [|x l IH]; cbn [nfuncs]; [lia|]. destruct (is_func x); lia. Qed.
+Lemma nvdecls_nonneg l : 0 <= nvdecls l.
+Proof. induction l as [|x l IH]; cbn [nvdecls]; [lia|]. destruct (is_vdecl x); lia. Qed.
+
+(* how many: everything above the limit *)
+Lemma tmf_count : forall l f0, 0 <= f0 -> zlen (tmf_list f0 l) = Z.max 0 (f0 + nfuncs l - functions_limit) - Z.max 0 (f0 - functions_limit).
+Proof.
+  induction l as [|x l IH]; intros f0 H0; cbn [tmf_list nfuncs].
+  - unfold zlen. cbn. lia.
+  - pose proof (nfuncs_nonneg l). destruct (is_func x).
+    + unfold zlen in *. rewrite app_length, Nat2Z.inj_add, IH by lia. unfold functions_limit in *.
+      destruct (Z.gtb_spec (f0 + 1) 5); cbn [Datatypes.length Z.of_nat]; lia.
+    + rewrite IH by lia. reflexivity.
+Qed.
+Lemma tmv_count : forall l v0, 0 <= v0 -> zlen (tmv_list v0 l) = Z.max 0 (v0 + nvdecls l - vars_limit) - Z.max 0 (v0 - vars_limit).
+Proof.
+  induction l as [|x l IH]; intros v0 H0; cbn [tmv_list nvdecls].
+  - unfold zlen. cbn. lia.
+  - pose proof (nvdecls_nonneg l). destruct (is_vdecl x).
+    + unfold zlen in *. rewrite app_length, Nat2Z.inj_add, IH by lia. unfold vars_limit in *.
+      destruct (Z.gtb_spec (v0 + 1) 5); cbn [Datatypes.length Z.of_nat]; lia.
+    + rewrite IH by lia. reflexivity.
+Qed.
+
+(* ------------------------------------------------------------------ the counter model follows the scope model *)
+Lemma crun_app : forall a b q, crun q (a ++ b) = match crun q a with Some q' => crun q' b | None => None end.
+Proof. induction a as [|x a IH]; intros b q; cbn [app crun]; [reflexivity|]. destruct (cstep q x); [apply IH|reflexivity]. Qed.
+
+Lemma cstep_base q x q' : cstep q x = Some q' -> step (base q) x = Some (base q').
+Proof.
+  unfold cstep. destruct (step (base q) x) as [b'|]; [|discriminate].
+  destruct (str_eqb (st_rule x) r_func_decl); destruct (str_eqb (st_rule x) r_var_decl);
+    try destruct (vars q) as [|v0 r]; try destruct (var_decl_run _ _); intros H; inversion H; reflexivity.
+Qed.
+Lemma cstep_total q x b' : step (base q) x = Some b' -> exists q', cstep q x = Some q' /\ base q' = b'.
+Proof.
+  intros H. unfold cstep. rewrite H.
+  destruct (str_eqb (st_rule x) r_func_decl); destruct (str_eqb (st_rule x) r_var_decl);
+    try destruct (vars q) as [|v0 r]; try destruct (var_decl_run _ _); eexists; split; reflexivity.
+Qed.
+Lemma crun_total : forall l q b', run (base q) l = Some b' -> exists q', crun q l = Some q' /\ base q' = b'.
+Proof.
+  induction l as [|x l IH]; intros q b' H; cbn [run crun] in *.
+  - inversion H. exists q. split; reflexivity.
+  - destruct (step (base q) x) as [b1|] eqn:S1; [|discriminate].
+    destruct (cstep_total q x b1 S1) as [q1 [C1 B1]]. rewrite C1. apply IH. now rewrite B1.
+Qed.
+
+(* statements that are no IsFuncDeclaration match leave the function counter and its diagnostics alone *)
+Lemma cstep_funcs q x q' : cstep q x = Some q' ->
+  functions q' = (if is_func x then functions q + 1 else functions q) /\
+  fems q' = (if is_func x then functions_count_run (head_kind (base q)) (functions q + 1) else []) ++ fems q.
+Proof.
+  unfold cstep, is_func. destruct (step (base q) x) as [b'|]; [|discriminate].
+  destruct (str_eqb (st_rule x) r_func_decl); destruct (str_eqb (st_rule x) r_var_decl);
+    try destruct (vars q) as [|v0 r]; try destruct (var_decl_run _ _); intros H; inversion H; split; reflexivity.
+Qed.
+Lemma crun_no_func : forall l q q', forallb (fun x => negb (is_func x)) l = true -> crun q l = Some q' ->
+  functions q' = functions q /\ fems q' = fems q.
+Proof.
+  induction l as [|x l IH]; intros q q' Hn H; cbn [crun] in H; [inversion H; split; reflexivity|].
+  cbn [forallb] in Hn. apply andb_true_iff in Hn as [Hx Hn]. apply negb_true_iff in Hx.
+  destruct (cstep q x) as [q1|] eqn:C; [|discriminate]. destruct (cstep_funcs _ _ _ C) as [A B]. rewrite Hx in A, B.
+  cbn [app] in B. destruct (IH _ _ Hn H) as [A' B']. split; congruence.
+Qed.
+Lemma cstep_vems q x q' : cstep q x = Some q' -> is_vdecl x = false -> vems q' = vems q.
+Proof.
+  unfold cstep, is_vdecl. destruct (step (base q) x) as [b'|]; [|discriminate]. intros H Hv. rewrite Hv in H.
+  destruct (str_eqb (st_rule x) r_func_decl); inversion H; reflexivity.
+Qed.
+Lemma crun_no_vdecl : forall l q q', forallb (fun x => negb (is_vdecl x)) l = true -> crun q l = Some q' -> vems q' = vems q.
+Proof.
+  induction l as [|x l IH]; intros q q' Hn H; cbn [crun] in H; [inversion H; reflexivity|].
+  cbn [forallb] in Hn. apply andb_true_iff in Hn as [Hx Hn]. apply negb_true_iff in Hx.
+  destruct (cstep q x) as [q1|] eqn:C; [|discriminate]. rewrite (IH _ _ Hn H). eapply cstep_vems; eassumption.
+Qed.
+
+(* ------------------------------------------------------------------ 5 functions *)
+Lemma tmf_list_nofunc : forall l f0, forallb (fun x => negb (is_func x)) l = true -> tmf_list f0 l = [] /\ nfuncs l = 0.
+Proof.
+  induction l as [|x l IH]; intros f0 H; cbn [tmf_list nfuncs]; [split; reflexivity|].
+  cbn [forallb] in H. apply andb_true_iff in H as [Hx H]. apply negb_true_iff in Hx. rewrite Hx. destruct (IH f0 H) as [A B]. rewrite A, B. split; reflexivity.
+Qed.
+Lemma nfuncs_app a b : nfuncs (a ++ b) = nfuncs a + nfuncs b.
+Proof. induction a as [|x a IH]; cbn [app nfuncs]; [lia|]. rewrite IH. lia. Qed.
+Lemma tmf_list_app : forall a b f0, tmf_list f0 (a ++ b) = tmf_list (f0 + nfuncs a) b ++ tmf_list f0 a.
+Proof.
+  induction a as [|x a IH]; intros b f0; cbn [app tmf_list nfuncs].
+  - rewrite Z.add_0_r, app_nil_r. reflexivity.
+  - destruct (is_func x).
+    + rewrite IH, app_assoc. do 3 f_equal. lia.
+    + rewrite IH. reflexivity.
+Qed.
+
+Lemma nofunc_app a b : forallb (fun x => negb (is_func x)) a = true -> forallb (fun x => negb (is_func x)) b = true ->
+  forallb (fun x => negb (is_func x)) (a ++ b) = true.
+Proof. intros A B. rewrite forallb_app, A, B. reflexivity. Qed.
+Lemma skips_nofunc gap : skips gap -> forallb (fun x => negb (is_func x)) gap = true.
+Proof.
+  induction 1 as [|x l [Hs _] _ IH]; [reflexivity|]. cbn [forallb]. rewrite IH, andb_true_r. unfold is_func.
+  unfold skipped, str_in, update_skipped in Hs. cbn [existsb] in Hs. rewrite orb_false_r in Hs.
+  repeat (apply orb_true_iff in Hs as [Hs|Hs]); apply str_eqb_eq in Hs; rewrite Hs; reflexivity.
+Qed.
+Lemma plain_nofunc r nl o : plain r = true -> negb (is_func (mkstmt r nl o)) = true.
+Proof.
+  intros Hp. unfold plain in Hp. apply negb_true_iff in Hp. unfold special_rules in Hp. cbn [app] in Hp.
+  apply str_in_cons_false in Hp as [_ Hp]. apply str_in_cons_false in Hp as [_ Hp]. apply str_in_cons_false in Hp as [_ Hp].
+  apply str_in_cons_false in Hp as [D _]. unfold is_func. cbn [st_rule]. change r_func_decl with r_func. now rewrite D.
+Qed.
+Lemma bodies_nofunc : (forall u, unit1 u -> forallb (fun x => negb (is_func x)) u = true) /\
+                      (forall b, body b -> forallb (fun x => negb (is_func x)) b = true).
+Proof.
+  apply unit1_body_ind.
+  - intros r nl Hp. cbn [forallb]. now rewrite plain_nofunc.
+  - intros nl. reflexivity.
+  - intros nl gap nlo b nlc [Hg _] _ IHb. cbn [forallb]. replace (negb (is_func (s_ctl nl))) with true by reflexivity. cbn [andb].
+    apply nofunc_app; [apply skips_nofunc; exact Hg|]. cbn [forallb]. replace (negb (is_func (s_open nlo))) with true by reflexivity. cbn [andb].
+    apply nofunc_app; [exact IHb|reflexivity].
+  - intros nl gap u Hg _ IHu. cbn [forallb]. replace (negb (is_func (s_ctl nl))) with true by reflexivity. cbn [andb].
+    apply nofunc_app; [apply skips_nofunc; exact Hg|exact IHu].
+  - reflexivity.
+  - intros x b [Hs Ho] _ IHb. cbn [forallb]. rewrite IHb, andb_true_r.
+    assert (H1 : skips [x]) by (constructor; [split; assumption|constructor]). apply skips_nofunc in H1. cbn [forallb] in H1. now rewrite andb_true_r in H1.
+  - intros u b _ IHu _ IHb. now apply nofunc_app.
+Qed.
+
+(* every unit of a file is one statement followed by statements that are no IsFuncDeclaration match; it starts and ends with
+   the global scope current *)
+Lemma top_unit_shape u : top_unit u -> exists x r, u = x :: r /\ forallb (fun y => negb (is_func y)) r = true /\
+  (is_func x = true -> exists nl, x = s_func nl).
+Proof.
+  intros [x Hx|r nl Hp|nl gap nlo b nlc [Hg _] Hb|cls nl gap nlo b nlc Hi Hc [Hg _] Hb].
+  - exists x, []. repeat split. intros Hf. assert (H1 : skips [x]) by (constructor; [exact Hx|constructor]). apply skips_nofunc in H1.
+    cbn [forallb] in H1. rewrite andb_true_r in H1. apply negb_true_iff in H1. congruence.
+  - exists (mkstmt r nl None), []. repeat split. intros Hf. pose proof (plain_nofunc r nl None Hp) as H1. apply negb_true_iff in H1. congruence.
+  - exists (s_func nl), (gap ++ s_open nlo :: b ++ [s_close nlc]). split; [reflexivity|]. split; [|intros _; exists nl; reflexivity].
+    apply nofunc_app; [apply skips_nofunc; exact Hg|]. cbn [forallb]. replace (negb (is_func (s_open nlo))) with true by reflexivity.
+    apply nofunc_app; [apply (proj2 bodies_nofunc); exact Hb|reflexivity].
+  - exists (mkstmt r_utype nl (Some cls)), (gap ++ s_open nlo :: b ++ [s_close nlc]). split; [reflexivity|]. split; [|intros Hf; discriminate].
+    apply nofunc_app; [apply skips_nofunc; exact Hg|]. cbn [forallb]. replace (negb (is_func (s_open nlo))) with true by reflexivity.
+    apply nofunc_app; [apply (proj2 bodies_nofunc); exact Hb|reflexivity].
+Qed.
+
+Lemma top_unit_base u : top_unit u -> forall g hs E, isglobal g -> last_ok hs ->
+  exists b' g', run (mkstate [g] hs E) u = Some b' /\ chain b' = [g'] /\ isglobal g' /\ last_ok (hist b').
+Proof.
+  intros Hu g hs E Hg Hl.
+  destruct Hu as [x [Hs Ho]|r nl Hp|nl gap nlo b nlc Hgap Hb|cls nl gap nlo b nlc Hi Hc Hgap Hb].
+  - destruct (skipped_facts _ Hs) as [A B]. cbn [run].
+    assert (D : str_eqb (st_rule x) r_cfd = false).
+    { unfold skipped, str_in, update_skipped in Hs. cbn [existsb] in Hs. rewrite orb_false_r in Hs.
+      repeat (apply orb_true_iff in Hs as [Hs|Hs]); apply str_eqb_eq in Hs; rewrite Hs; reflexivity. }
+    rewrite (step_global_plain g [] hs E x Hg A B Ho D Hl). eexists. eexists. split; [reflexivity|]. repeat split; assumption.
+  - destruct (plain_spec _ Hp). cbn [run].
+    rewrite (step_global_plain g [] hs E (mkstmt r nl None) Hg); try assumption; try reflexivity.
+    eexists. eexists. split; [reflexivity|]. repeat split; assumption.
+  - apply (depth_back_at_file_level g hs E (s_func nl) k_function gap nlo b nlc Hg (func_opener nl) Hl Hgap Hb).
+  - apply (depth_back_at_file_level g hs E _ cls gap nlo b nlc Hg (utype_opener nl cls Hi Hc) Hl Hgap Hb).
+Qed.
+
+Definition at_file_level (q : cstate) : Prop := exists g, chain (base q) = [g] /\ isglobal g /\ last_ok (hist (base q)).
+
+(* C03, 5 functions: along ANY file (functions, prototypes and globals as plain statements, user-defined types, blank / comment /
+   preprocessor lines) the counter is the number of IsFuncDeclaration matches and TOO_MANY_FUNCS is emitted at exactly those
+   matches that bring it above the limit *)
+Theorem funcs_file : forall f, file f -> forall q, at_file_level q ->
+  exists q', crun q f = Some q' /\ at_file_level q' /\
+    functions q' = functions q + nfuncs f /\ fems q' = tmf_list (functions q) f ++ fems q.
+Proof.
+  induction 1 as [|u f Hu Hf IH]; intros q Hq.
+  - exists q. cbn [crun nfuncs tmf_list app]. rewrite Z.add_0_r. repeat split; assumption.
+  - destruct Hq as [g [Hc [Hg Hl]]].
+    destruct q as [[ch hs E] fn vs fe ve]. cbn [base chain hist] in Hc, Hl. subst ch.
+    destruct (top_unit_base u Hu g hs E Hg Hl) as [b' [g' [R [C' [G' L']]]]].
+    destruct (crun_total u (mkc (mkstate [g] hs E) fn vs fe ve) b' R) as [q1 [C1 B1]].
+    destruct (top_unit_shape u Hu) as [x [r [Eu [Hr Hx]]]].
+    assert (F1 : functions q1 = fn + nfuncs u /\ fems q1 = tmf_list fn u ++ fe).
+    { subst u. cbn [crun] in C1. destruct (cstep (mkc (mkstate [g] hs E) fn vs fe ve) x) as [q0|] eqn:S0; [|discriminate].
+      destruct (cstep_funcs _ _ _ S0) as [A B]. destruct (crun_no_func _ _ _ Hr C1) as [A' B']. cbn [functions fems base] in A, B.
+      destruct (tmf_list_nofunc r (if is_func x then fn + 1 else fn) Hr) as [T N]. cbn [nfuncs tmf_list]. rewrite N.
+      destruct (is_func x) eqn:Fx.
+      - destruct (tmf_list_nofunc r (fn + 1) Hr) as [T' _]. rewrite T'. cbn [app]. split; [lia|].
+        rewrite B', B. unfold head_kind. cbn [chain]. rewrite Hg. unfold functions_count_run.
+        replace (str_eqb k_global (s "GlobalScope")) with true by reflexivity. reflexivity.
+      - destruct (tmf_list_nofunc r fn Hr) as [T' _]. rewrite T'. split; [lia|]. rewrite B', B. reflexivity. }
+    destruct F1 as [F1 F2].
+    destruct (IH q1) as [q' [R' [Q' [A' B']]]]; [exists g'; rewrite B1; repeat split; assumption|].
+    exists q'. rewrite crun_app, C1. split; [exact R'|]. split; [exact Q'|]. split.
+    + rewrite A', F1, nfuncs_app. cbn [functions]. lia.
+    + rewrite B', F2, F1, tmf_list_app. cbn [functions fems]. rewrite app_assoc. reflexivity.
+Qed.
+
+(* from the start of a file: k definitions give max(0, k - 5) diagnostics - none up to 5, one for each definition from the 6th on *)
+Theorem funcs_iff : forall f, file f ->
+  exists q, crun cstate0 f = Some q /\ functions q = nfuncs f /\ fems q = tmf_list 0 f /\
+    zlen (fems q) = Z.max 0 (nfuncs f - functions_limit).
+Proof.
+  intros f Hf. destruct (funcs_file f Hf cstate0) as [q [R [_ [A B]]]].
+  { exists global0. repeat split. }
+  exists q. split; [exact R|]. cbn [cstate0 functions fems] in A, B. unfold counters_start in A, B. rewrite app_nil_r in B.
+  split; [lia|]. split; [exact B|]. rewrite B, tmf_count by lia. unfold functions_limit. lia.
+Qed.
+
+(* ------------------------------------------------------------------ 5 variables *)
+Definition vdecl (nl : Z) : stmt := mkstmt r_var_decl nl None.
+Definition cinv (q : cstate) : Prop := List.length (vars q) = List.length (chain (base q)).
+
+Lemma resize_length vs n : List.length (resize vs n) = n.
+Proof.
+  unfold resize. destruct (Nat.ltb_spec (List.length vs) n).
+  - rewrite app_length, repeat_length. lia.
+  - rewrite skipn_length. lia.
+Qed.
+Lemma resize_same vs : resize vs (List.length vs) = vs.
+Proof. unfold resize. rewrite Nat.ltb_irrefl, Nat.sub_diag. reflexivity. Qed.
+Lemma resize_push vs : resize vs (S (List.length vs)) = counters_start :: vs.
+Proof. unfold resize. replace (Nat.ltb (List.length vs) (S (List.length vs))) with true by (symmetry; apply Nat.ltb_lt; lia).
+  replace (S (List.length vs) - List.length vs)%nat with 1%nat by lia. reflexivity. Qed.
+
+Lemma cstep_cinv q x q' : cstep q x = Some q' -> cinv q'.
+Proof.
+  unfold cstep, cinv. destruct (step (base q) x) as [b'|]; [|discriminate].
+  destruct (str_eqb (st_rule x) r_func_decl); destruct (str_eqb (st_rule x) r_var_decl);
+    try destruct (vars q) as [|v0 r]; try destruct (var_decl_run _ _); intros H; inversion H; cbn [vars base]; apply resize_length.
+Qed.
+
+(* a statement that is no declaration: the counters of the scopes that stay are untouched *)
+Lemma cstep_other q x b' : step (base q) x = Some b' -> is_vdecl x = false ->
+  exists q', cstep q x = Some q' /\ base q' = b' /\ vars q' = resize (vars q) (List.length (chain b')) /\ vems q' = vems q.
+Proof.
+  intros H Hv. unfold cstep, is_vdecl in *. rewrite H, Hv.
+  destruct (str_eqb (st_rule x) r_func_decl); eexists; (split; [reflexivity|]); repeat split.
+Qed.
+
+(* a declaration directly in a Function scope: counted there, reported above the limit *)
+Lemma cstep_vdecl q nl F rest v0 vr : chain (base q) = F :: rest -> s_kind F = k_function -> vars q = v0 :: vr -> cinv q ->
+  exists q', cstep q (vdecl nl) = Some q' /\ base q' = mkstate (bump F nl :: rest) (r_var_decl :: hist (base q)) (ems (base q)) /\
+    vars q' = (v0 + 1) :: vr /\ vems q' = (if v0 + 1 >? vars_limit then [tmv] else []) ++ vems q /\ fems q' = fems q /\ functions q' = functions q.
+Proof.
+  intros Hc Hk Hv Hi. destruct q as [[ch hs E] fn vs fe ve]. cbn [base chain hist vars vems fems functions] in *. subst ch vs.
+  assert (G : nonglobal F) by (unfold nonglobal; rewrite Hk; reflexivity).
+  assert (B : bl F = false) by (unfold bl, is_class; rewrite Hk; reflexivity).
+  unfold cstep. cbn [base]. rewrite (step_plainlike (mkstate (F :: rest) hs E) (vdecl nl) F rest eq_refl); try reflexivity; [|exact G].
+  cbn [hist ems vdecl st_rule st_nl]. rewrite update_stable; [|reflexivity|reflexivity|change (bl (bump F nl)) with (bl F); now rewrite B].
+  replace (str_eqb r_var_decl r_func_decl) with false by reflexivity. replace (str_eqb r_var_decl r_var_decl) with true by reflexivity.
+  cbn [vars functions fems vems]. unfold head_kind. cbn [chain]. rewrite Hk. unfold var_decl_run.
+  replace (str_eqb k_function (s "Function")) with true by reflexivity. cbv zeta.
+  eexists. split; [reflexivity|]. cbn [base chain hist vars vems fems functions]. unfold cinv in Hi. cbn [vars base chain Datatypes.length] in Hi.
+  replace (Datatypes.length (bump F nl :: rest)) with (Datatypes.length ((v0 + 1) :: vr)) by (cbn [Datatypes.length]; lia).
+  rewrite resize_same. repeat split.
+Qed.
+
+Lemma crun_vdecls : forall nls q F rest v0 vr, chain (base q) = F :: rest -> s_kind F = k_function -> vars q = v0 :: vr -> cinv q ->
+  exists q' F', crun q (map vdecl nls) = Some q' /\ chain (base q') = F' :: rest /\ s_kind F' = k_function /\ s_multi F' = s_multi F /\
+    s_lines F' = s_lines F + total_nl (map vdecl nls) /\
+    hist (base q') = names (map vdecl nls) ++ hist (base q) /\ ems (base q') = ems (base q) /\
+    vars q' = (v0 + zlen nls) :: vr /\ vems q' = tmv_list v0 (map vdecl nls) ++ vems q /\ cinv q'.
+Proof.
+  induction nls as [|nl nls IH]; intros q F rest v0 vr Hc Hk Hv Hi.
+  - exists q, F. cbn [map crun tmv_list app total_nl fold_right names rev]. unfold zlen. cbn [Datatypes.length Z.of_nat]. rewrite !Z.add_0_r.
+    repeat split; assumption.
+  - destruct (cstep_vdecl q nl F rest v0 vr Hc Hk Hv Hi) as [q1 [S1 [B1 [V1 [E1 _]]]]].
+    assert (C1 : chain (base q1) = bump F nl :: rest) by (rewrite B1; reflexivity).
+    destruct (IH q1 (bump F nl) rest (v0 + 1) vr C1 Hk V1 (cstep_cinv _ _ _ S1)) as [q' [F' [R [C' [K' [M' [L' [H' [Em' [V' [E' I']]]]]]]]]]].
+    exists q', F'. cbn [map crun]. rewrite S1. split; [exact R|]. split; [exact C'|]. split; [exact K'|]. split; [exact M'|]. split.
+    { rewrite L'. cbn [bump s_lines total_nl fold_right vdecl st_nl]. fold (total_nl (map vdecl nls)). lia. }
+    split. { rewrite H', B1, names_cons, <- app_assoc. reflexivity. }
+    split.
+    { rewrite Em', B1. reflexivity. }
+    split. { rewrite V'. f_equal. unfold zlen. cbn [Datatypes.length]. lia. }
+    split; [|exact I'].
+    rewrite E', E1. cbn [tmv_list]. replace (is_vdecl (vdecl nl)) with true by reflexivity. rewrite app_assoc. reflexivity.
+Qed.
+
+Lemma crun_skips_c : forall gap q h rest, chain (base q) = h :: rest -> nonglobal h -> skips gap -> cinv q ->
+  exists q', crun q gap = Some q' /\
+    base q' = mkstate (mksc (s_kind h) (s_lines h + total_nl gap) (s_instr h + zlen gap) (s_multi h) :: rest) (names gap ++ hist (base q)) (ems (base q)) /\
+    vars q' = vars q /\ vems q' = vems q /\ cinv q'.
+Proof.
+  induction gap as [|x gap IH]; intros q h rest Hc G Hg Hi.
+  - exists q. cbn [crun total_nl fold_right names map rev app]. unfold zlen. cbn [Datatypes.length Z.of_nat]. rewrite !Z.add_0_r.
+    destruct q as [[ch hs E] fn vs fe ve]. cbn [base chain hist ems] in *. subst ch. destruct h. repeat split; assumption.
+  - inversion Hg as [|? ? Hx Hg']; subst.
+    destruct q as [[ch hs E] fn vs fe ve]. cbn [base chain hist ems vars vems] in *. subst ch.
+    assert (Hv : is_vdecl x = false).
+    { destruct Hx as [Hs _]. unfold is_vdecl. unfold skipped, str_in, update_skipped in Hs. cbn [existsb] in Hs. rewrite orb_false_r in Hs.
+      repeat (apply orb_true_iff in Hs as [Hs|Hs]); apply str_eqb_eq in Hs; rewrite Hs; reflexivity. }
+    destruct (cstep_other (mkc (mkstate (h :: rest) hs E) fn vs fe ve) x _ (step_skip (mkstate (h :: rest) hs E) x h rest eq_refl Hx G) Hv)
+      as [q1 [S1 [B1 [V1 E1]]]].
+    cbn [crun]. rewrite S1. cbn [vars vems chain hist ems] in V1, E1.
+    unfold cinv in Hi. cbn [vars base chain] in Hi.
+    replace (Datatypes.length (bump h (st_nl x) :: rest)) with (Datatypes.length vs) in V1 by (cbn [Datatypes.length] in *; lia).
+    rewrite resize_same in V1.
+    destruct (IH q1 (bump h (st_nl x)) rest) as [q' [R [B' [V' [E' I']]]]]; [rewrite B1; reflexivity|exact G|exact Hg'|eapply cstep_cinv; exact S1|].
+    exists q'. split; [exact R|]. split.
+    + rewrite B', B1. cbn [bump s_kind s_lines s_instr s_multi hist ems total_nl fold_right]. fold (total_nl gap).
+      rewrite names_cons, <- app_assoc. cbn [app]. f_equal. f_equal. apply sc_eq; [lia|unfold zlen; cbn [Datatypes.length]; lia].
+    + rewrite V', V1, E', E1. repeat split. exact I'.
+Qed.
+
+Lemma body_decls nls rest : body rest -> body (map vdecl nls ++ rest).
+Proof.
+  intros Hr. induction nls as [|nl nls IH]; [exact Hr|]. cbn [map app].
+  apply (B_unit [vdecl nl]); [apply U_plain; reflexivity|exact IH].
+Qed.
+
+(* C03, 5 variables: a function whose body starts with the declarations `nls` (IsVarDeclaration matches directly in the function's
+   block) and goes on with any well-nested body without further declarations: the counter starts at 0 for THIS function whatever
+   came before, and TOO_MANY_VARS_FUNC is emitted once for every declaration beyond the limit - none up to 5 *)
+Theorem vars_iff : forall q nl gap nlo nls rest nlc, at_file_level q -> cinv q -> gap_ok gap -> body rest ->
+  forallb (fun x => negb (is_vdecl x)) rest = true ->
+  exists q', crun q (block_of (s_func nl) gap nlo (map vdecl nls ++ rest) nlc) = Some q' /\
+    vems q' = tmv_list 0 (map vdecl nls) ++ vems q /\
+    zlen (tmv_list 0 (map vdecl nls)) = Z.max 0 (zlen nls - vars_limit) /\
+    at_file_level q' /\ cinv q'.
+Proof.
+  intros q nl gap nlo nls rest nlc [g [Hc [Hg Hl]]] Hi Hgap Hrest Hnv.
+  destruct q as [[ch hs E] fn vs fe ve]. cbn [base chain hist] in Hc, Hl. subst ch.
+  assert (Hb : body (map vdecl nls ++ rest)) by (apply body_decls; exact Hrest).
+  destruct (depth_back_at_file_level g hs E (s_func nl) k_function gap nlo (map vdecl nls ++ rest) nlc Hg (func_opener nl) Hl Hgap Hb)
+    as [bf [g' [R [C' [G' L']]]]].
+  destruct (crun_total _ (mkc (mkstate [g] hs E) fn vs fe ve) bf R) as [q' [CR B']].
+  exists q'. split; [exact CR|].
+  (* the prefix: header, gap, `{` *)
+  assert (Ew : block_of (s_func nl) gap nlo (map vdecl nls ++ rest) nlc
+               = [s_func nl] ++ gap ++ [s_open nlo] ++ map vdecl nls ++ (rest ++ [s_close nlc])).
+  { unfold block_of. cbn [app]. rewrite <- !app_assoc. reflexivity. }
+  rewrite Ew in CR.
+  unfold cinv in Hi. cbn [vars base chain Datatypes.length] in Hi.
+  destruct (cstep_other (mkc (mkstate [g] hs E) fn vs fe ve) (s_func nl) _ (step_opener g [] hs E (s_func nl) k_function Hg (func_opener nl) Hl) eq_refl)
+    as [q1 [S1 [B1 [V1 E1]]]].
+  cbn [vars vems chain Datatypes.length] in V1, E1.
+  replace 2%nat with (S (Datatypes.length vs)) in V1 by lia. rewrite resize_push in V1.
+  rewrite crun_app in CR. cbn [crun] in CR. rewrite S1 in CR.
+  destruct Hgap as [Hgs Hgl].
+  destruct (crun_skips_c gap q1 (new_scope k_function false) [bump g nl]) as [q2 [R2 [B2 [V2 [E2 I2]]]]];
+    [rewrite B1; reflexivity|reflexivity|exact Hgs|eapply cstep_cinv; exact S1|].
+  rewrite crun_app, R2 in CR.
+  set (F1 := mksc (s_kind (new_scope k_function false)) (s_lines (new_scope k_function false) + total_nl gap)
+                  (s_instr (new_scope k_function false) + zlen gap) (s_multi (new_scope k_function false))) in *.
+  assert (S3 : step (base q2) (s_open nlo) = Some (mkstate (mksc (s_kind F1) (s_lines F1 + nlo) (s_instr F1 + 1) true :: [bump g nl])
+                 (r_block_start :: hist (base q2)) (brace_line_test (s_kind F1) (s_lines F1) ++ ems (base q2)))).
+  { apply (step_open_mark (base q2) nlo F1 [bump g nl]); [rewrite B2; reflexivity|reflexivity|].
+    rewrite B2, B1. cbn [hist]. rewrite scan_gap; [|exact Hgs|reflexivity|reflexivity]. unfold F1. cbn [s_lines new_scope].
+    replace (0 + total_nl gap - zlen gap >=? 1) with false; [reflexivity|]. symmetry. rewrite Z.geb_leb. apply Z.leb_gt. lia. }
+  destruct (cstep_other q2 (s_open nlo) _ S3 eq_refl) as [q3 [C3 [B3 [V3 E3]]]].
+  rewrite crun_app in CR. cbn [crun] in CR. rewrite C3 in CR.
+  cbn [chain Datatypes.length] in V3. rewrite V2, V1 in V3.
+  replace 2%nat with (Datatypes.length (counters_start :: vs)) in V3 by (cbn [Datatypes.length]; lia). rewrite resize_same in V3.
+  (* the declarations *)
+  destruct (crun_vdecls nls q3 (mksc (s_kind F1) (s_lines F1 + nlo) (s_instr F1 + 1) true) [bump g nl] counters_start vs)
+    as [q4 [F4 [R4 [C4 [K4 [M4 [L4 [H4 [Em4 [V4 [E4 I4]]]]]]]]]]];
+    [rewrite B3; reflexivity|reflexivity|exact V3|eapply cstep_cinv; exact C3|].
+  rewrite crun_app, R4 in CR.
+  (* the rest of the body and the closing brace hold no declaration *)
+  assert (Hnv' : forallb (fun x => negb (is_vdecl x)) (rest ++ [s_close nlc]) = true) by (rewrite forallb_app, Hnv; reflexivity).
+  pose proof (crun_no_vdecl _ _ _ Hnv' CR) as E5.
+  split; [rewrite E5, E4, E3, E2, E1; reflexivity|].
+  split.
+  { rewrite tmv_count by (unfold counters_start; lia). unfold vars_limit.
+    assert (Hn : nvdecls (map vdecl nls) = zlen nls).
+    { clear. induction nls as [|a l IH]; [reflexivity|]. cbn [map nvdecls]. replace (is_vdecl (vdecl a)) with true by reflexivity.
+      rewrite IH. unfold zlen. cbn [Datatypes.length]. lia. }
+    rewrite Hn. lia. }
+  split.
+  - exists g'. rewrite B'. repeat split; assumption.
+  - (* the invariant holds after any step *)
+    clear - CR I4. revert CR. generalize (rest ++ [s_close nlc]). intros l. revert q4 I4.
+    induction l as [|x l IH]; intros q4 I4 CR; cbn [crun] in CR; [inversion CR; subst; exact I4|].
+    destruct (cstep q4 x) as [q5|] eqn:S5; [|discriminate]. apply (IH q5); [eapply cstep_cinv; exact S5|exact CR].
+Qed.
+
+(* ------------------------------------------------------------------ ties *)
+Lemma counter_limits_tie :
+  NV.Gen.Limits.limits_check_functions_count = [("context.scope.functions"%string, ">"%string, functions_limit)] /\
+  NV.Gen.Limits.limits_check_variable_declaration = [("context.scope.vars"%string, ">"%string, vars_limit)] /\
+  NV.Gen.Limits.limits_check_func_declaration = [("arg"%string, ">"%string, args_limit)].
+Proof. repeat split; reflexivity. Qed.
+(* the three checks are dependents of the primaries the model attaches them to *)
+Lemma counter_checks_depend :
+  forallb (fun c => negb (str_eqb (NV.Gen.Registry.c_name c) (s "CheckFunctionsCount")) || str_eqb (List.concat (NV.Gen.Registry.c_depends c)) r_func_decl)
+          NV.Gen.Registry.checks = true /\
+  forallb (fun c => negb (str_eqb (NV.Gen.Registry.c_name c) (s "CheckVariableDeclaration")) || str_eqb (List.concat (NV.Gen.Registry.c_depends c)) r_var_decl)
+          NV.Gen.Registry.checks = true /\
+  func_declaration_depends = [s "IsFuncDeclaration"; s "IsFuncPrototype"; s "IsUserDefinedType"].
+Proof. repeat split; reflexivity. Qed.
+(* the only statement of the argument-counting slice that is not translated only tests blanks and emits NO_SPC_BFR_PAR *)
+Lemma args_left_out_expected : args_left_out = ["context.check_token(i - 1, ['SPACE', 'TAB']) is True"%string].
+Proof. reflexivity. Qed.
+(* every store to .functions / .vars / .fname_pos in the source; CheckBlockStart's `functions -= 1` sits in the tmp_scope branch
+   (tmp_scope is only ever None, see scope_write_sites_expected) *)
+Lemma counter_write_sites_expected : counter_write_sites =
+  ["norminette/rules/check_block_start.py:run: context.scope.functions -= 1"%string;
+   "norminette/rules/check_variable_declaration.py:run: context.scope.vars += 1"%string;
+   "norminette/rules/is_func_declaration.py:check_func_format: context.fname_pos = i"%string;
+   "norminette/rules/is_func_declaration.py:run: context.scope.functions += 1"%string;
+   "norminette/rules/is_func_prototype.py:check_func_format: context.fname_pos = i"%string;
+   "norminette/context.py:__init__: self.fname_pos = 0"%string;
+   "norminette/scope.py:__init__: self.vars = 0"%string;
+   "norminette/scope.py:__init__: self.functions = 0"%string;
+   "norminette/scope.py:__init__: self.fname_pos = 0"%string].
+Proof. reflexivity. Qed.
+
+(* ------------------------------------------------------------------ non-vacuity: the boundary cases evaluated in the model *)
+Definition x_small_func : list stmt := block_of (s_func 1) [] 1 [mkstmt (s "IsExpressionStatement") 1 None] 1.
+Definition x_blank_c : stmt := mkstmt (s "IsEmptyLine") 1 None.
+Definition file_of (k : nat) : list stmt := List.concat (repeat (x_small_func ++ [x_blank_c]) k).
+Example funcs_at_the_boundary : map (fun k => match crun cstate0 (file_of k) with Some q => Some (functions q, fems q) | None => None end) [5%nat; 6%nat; 8%nat]
+  = [Some (5, []); Some (6, [tmf]); Some (8, [tmf; tmf; tmf])].
+Proof. vm_compute. reflexivity. Qed.
+Lemma file_of_is_file k : file (file_of k).
+Proof.
+  induction k as [|k IH]; [constructor|]. unfold file_of. cbn [repeat List.concat]. fold (file_of k). rewrite <- app_assoc.
+  apply (F_cons x_small_func).
+  - apply (T_func 1 [] 1 [mkstmt (s "IsExpressionStatement") 1 None] 1).
+    + split; [constructor|unfold total_nl, zlen; cbn; lia].
+    + apply (B_unit [mkstmt (s "IsExpressionStatement") 1 None] []); [apply U_plain; reflexivity|constructor].
+  - apply (F_cons [x_blank_c]); [apply T_skip; split; reflexivity|exact IH].
+Qed.
+Definition func_with_vars (v : nat) : list stmt :=
+  block_of (s_func 1) [] 1 (map vdecl (repeat 1 v) ++ [x_blank_c; mkstmt (s "IsExpressionStatement") 1 None]) 1.
+(* a first function with 7 declarations, then one with 5 / 6: the second counter starts from 0 *)
+Example vars_at_the_boundary :
+  map (fun v => match crun cstate0 (func_with_vars 7 ++ [x_blank_c] ++ func_with_vars v) with Some q => Some (vems q, vars q) | None => None end) [5%nat; 6%nat]
+  = [Some ([tmv; tmv], [0]); Some ([tmv; tmv; tmv], [0])].
+Proof. vm_compute. reflexivity. Qed.
+(* `int f(int a, void *b, char ( *g)(int, int), int d[2], int e)` : five parameters, commas inside the parentheses of the function
+   pointer do not count; and `f(void)` counts as one *)
+Definition tk (ty : string) (c : Z) : token := mk_tok (s ty) 3 c.
+Definition x_params5 : list token :=
+  [tk "INT" 7; tk "SPACE" 10; tk "IDENTIFIER" 11; tk "COMMA" 12; tk "SPACE" 13; tk "VOID" 14; tk "SPACE" 18; tk "MULT" 19; tk "IDENTIFIER" 20; tk "COMMA" 21;
+   tk "SPACE" 22; tk "CHAR" 23; tk "SPACE" 27; tk "LPARENTHESIS" 28; tk "MULT" 29; tk "IDENTIFIER" 30; tk "RPARENTHESIS" 31;
+   tk "LPARENTHESIS" 32; tk "INT" 33; tk "COMMA" 36; tk "SPACE" 37; tk "INT" 38; tk "RPARENTHESIS" 41; tk "COMMA" 42; tk "SPACE" 43;
+   tk "INT" 44; tk "SPACE" 47; tk "IDENTIFIER" 48; tk "LBRACKET" 49; tk "CONSTANT" 50; tk "RBRACKET" 51; tk "COMMA" 52; tk "SPACE" 53;
+   tk "INT" 54; tk "SPACE" 57; tk "IDENTIFIER" 58].
+Definition x_decl5 : list token := [tk "INT" 1; tk "TAB" 4; tk "IDENTIFIER" 5; tk "LPARENTHESIS" 6] ++ x_params5 ++ [tk "RPARENTHESIS" 59; tk "NEWLINE" 60].
+Example args_five : check_func_decl_args x_decl5 42 2 (mkview [] [] false 0 false false) = Ok (5, 41, [(s "TOO_MANY_ARGS", 3, 60)]).
+Proof. vm_compute. reflexivity. Qed.
+Example args_void : check_func_decl_args [tk "INT" 1; tk "TAB" 4; tk "IDENTIFIER" 5; tk "LPARENTHESIS" 6; tk "VOID" 7; tk "RPARENTHESIS" 11; tk "NEWLINE" 12] 7 2
+                      (mkview [] [] false 0 false false) = Ok (1, 6, []).
+Proof. vm_compute. reflexivity. Qed.
+(* `int, char ( *g)(int, int)` is a parameter list with one top-level comma: the hypotheses of args_iff are inhabited *)
+Example a_plist : plist [tk "INT" 1; tk "COMMA" 4; tk "CHAR" 6; tk "LPARENTHESIS" 11; tk "MULT" 12; tk "IDENTIFIER" 13; tk "RPARENTHESIS" 14;
+                         tk "LPARENTHESIS" 15; tk "INT" 16; tk "COMMA" 19; tk "INT" 21; tk "RPARENTHESIS" 24] (0 + 1).
+Proof.
+  apply pl_tok; [reflexivity|]. apply pl_comma; [reflexivity|]. apply pl_tok; [reflexivity|].
+  apply (pl_grp (tk "LPARENTHESIS" 11) (tk "RPARENTHESIS" 14) [tk "MULT" 12; tk "IDENTIFIER" 13]); [reflexivity|reflexivity| |].
+  - apply bal_tok; [reflexivity|reflexivity|]. apply bal_tok; [reflexivity|reflexivity|]. constructor.
+  - apply (pl_grp (tk "LPARENTHESIS" 15) (tk "RPARENTHESIS" 24) [tk "INT" 16; tk "COMMA" 19; tk "INT" 21] []); [reflexivity|reflexivity| |constructor].
+    repeat (apply bal_tok; [reflexivity|reflexivity|]). constructor.
 Qed.
